@@ -1,5 +1,6 @@
 import OpyVerif.Proofs.TaskTrial
 import OpyVerif.Proofs.TaskRunCode
+import OpyVerif.Proofs.TaskTrialCode
 import OpyVerif.Generated.Skeletons.evalSites_ok
 /-!
 C01 for *every* objective call of a task, whatever the optimiser does with the values.  An update is a script of trials at
@@ -70,6 +71,24 @@ theorem anyUpdate_spec (lbs ubs : List Int) (f : Pos → Int) (hb : BoundsOk lbs
     rcases List.mem_append.mp he with he | he
     · exact hstep.1 e he
     · exact i1 e he
+
+/-- **C03, calls per update.**  With sites that call the objective once, an update makes at most one objective call per trial
+    (exactly one for every trial that names an existing individual): the number of calls inside an update is bounded by the number
+    of trials the algorithm performs, whatever they propose and whatever becomes of them. -/
+theorem anyUpdate_calls (lbs ubs : List Int) (f : Pos → Int) (pop : List Ag) (ts : List AnyTrial)
+    (hone : ∀ t ∈ ts, (t.site.ops.filter (· == .eval)).length = 1) :
+    (anyUpdate lbs ubs f pop ts).2.length ≤ ts.length := by
+  induction ts generalizing pop with
+  | nil => simp [anyUpdate]
+  | cons t ts ih =>
+    simp only [anyUpdate, List.length_append, List.length_cons]
+    have h1 : (anyTrialStep lbs ubs f pop t).2.length ≤ 1 := by
+      unfold anyTrialStep
+      cases pop[t.who]? with
+      | none => simp
+      | some a => simp [runOps_one, hone t List.mem_cons_self]
+    have h2 := ih (anyTrialStep lbs ubs f pop t).1 (fun t' ht' => hone t' (List.mem_cons_of_mem _ ht'))
+    omega
 
 /-- reading an event list with one flag, "the whole population is known to be inside the box": updates clear it, the
     space-wide clip sets it, a sweep needs it; `none` = some sweep is reached without it -/
@@ -204,6 +223,12 @@ theorem code_anyTrial_ok (site : Site) (hsite : site ∈ Gen.evalSites) (hns : s
     AnyTrial.OK lbs { site := site, who := who, proposals := proposals, after := after } := by
   have h := List.all_eq_true.mp Gen.evalSites_ok site hsite
   exact ⟨by simpa [Site.ok, hns] using h, ha, hp⟩
+
+/-- **C03 about the translated sites.**  Every evaluation site of the current source calls the objective exactly once
+    (`decide` over `Gen.evalSites`), so an update built from them makes at most one call per trial. -/
+theorem code_anyUpdate_calls (lbs ubs : List Int) (f : Pos → Int) (pop : List Ag) (ts : List AnyTrial)
+    (hsites : ∀ t ∈ ts, t.site ∈ Gen.evalSites) : (anyUpdate lbs ubs f pop ts).2.length ≤ ts.length :=
+  anyUpdate_calls lbs ubs f pop ts (fun t ht => code_sites_one_eval t.site (hsites t ht))
 
 /-- **C01 about the translated programs, every objective call.**  Any of the sixteen skeletons, `SearchSpace.check_limits`,
     `Optimizer._evaluate`, trials at any non-sweep sites of `Gen.evalSites` with arbitrary outcomes: every position handed to the
